@@ -58,9 +58,9 @@ def plan(tier, seed):
         for lo in range(0, total, 512):
             items.append({"kind": "A_exh", "plen": n, "lo": lo, "hi": min(total, lo + 512),
                           "exhaustive": "part A: every short-write composition of frames of 6..12 bytes"})
-    nA = 1500 if tier == "quick" else 30000
-    nB = 6000 if tier == "quick" else 150000
-    nC = 6000 if tier == "quick" else 150000
+    nA = 1500 if tier == "quick" else 60000
+    nB = 6000 if tier == "quick" else 300000
+    nC = 6000 if tier == "quick" else 300000
     for s in range(0, nA, 250):
         items.append({"kind": "A_rand", "start": s, "count": 250})
     per = 250 if tier == "quick" else 1500
